@@ -37,7 +37,9 @@ var (
 func theGrid() *hostGrid {
 	gridOnce.Do(func() {
 		for try := 0; try < 200; try++ {
-			p := 20000 + (int(time.Now().UnixNano()/1000)+try*13)%10000
+			// grids of different processes sit ten ports apart (P = 5 mod 10), so that a near-miss port of one process's
+			// case (P-2 .. P+2) is never a listener of another process's grid
+			p := 20005 + ((int(time.Now().UnixNano()/1000)+try*13)%1000)*10
 			var ls []*backend.Listener
 			ok := true
 			for d := -1; d <= 1; d++ {
